@@ -195,7 +195,9 @@ fn check_trait_path(ex: &Extract) -> Option<(String, String)> {
 pub fn check(tier: &str) -> i32 {
     let mut rep = Report::new("C07", tier, "model_checking");
     let mut agg = Agg::new();
-    let cfgs = configs(tier);
+    // since round 4 the quick tier explores the thorough bound (the whole product costs seconds)
+    let bound_tier = "thorough";
+    let cfgs = configs(bound_tier);
     let states: Vec<State> = cfgs.iter().map(|c| State { label: format!("facets {}", c.label), depth: c.chain.len() as u32, set: build(c) }).collect();
     let ran = run_states(&states);
     let mut cases = vec![];
@@ -216,7 +218,7 @@ pub fn check(tier: &str) -> i32 {
             continue;
         };
         let env = m.req.unwrap();
-        let pls = placements(cfg, tier);
+        let pls = placements(cfg, bound_tier);
         let mut d = format!("use {trait_path} as ZvCheck;\n");
         let mut problems = vec![];
         for (pi, pl) in pls.iter().enumerate() {
@@ -328,7 +330,7 @@ pub fn check(tier: &str) -> i32 {
     rep.set("verdicts_judged", json!(verdicts));
     rep.set("transmissions_judged", json!(transmissions));
     rep.set("exhaustive", json!(true));
-    rep.set("bound", json!("facet configurations (each facet kind on string/int/long, two pairs, derivation chains of depth 2 and 3, one of them with its first level in an imported schema file of another namespace) x 12 positions of the restricted value (direct, optional, first/second item of a repeated member, nested 1 and 2 levels, attribute, member inherited through a complex extension, header part, a ref= to a global element of the restricted type, a choice branch, an attribute whose name differs from an element's in case only) x placements: all-valid (each boundary value), every single position x every violating value, pairs (thorough: all; quick: neighbouring), one triple; transmission half for all-valid and single placements"));
+    rep.set("bound", json!("facet configurations (each facet kind on string/int/long, two pairs, derivation chains of depth 2 and 3, one of them with its first level in an imported schema file of another namespace) x 12 positions of the restricted value (direct, optional, first/second item of a repeated member, nested 1 and 2 levels, attribute, member inherited through a complex extension, header part, a ref= to a global element of the restricted type, a choice branch, an attribute whose name differs from an element's in case only) x placements: all-valid (each boundary value), every single position x every violating value, all pairs (both tiers since round 4), one triple; transmission half for all-valid and single placements"));
     rep.set("batch", json!({"packages": res.packages, "cache_hits": res.cache_hits, "build_s": res.build_secs, "run_s": res.run_secs}));
     rep.assume("the restriction-check trait and method are discovered through an impl in the emitted file");
     rep.finish()
